@@ -217,6 +217,46 @@ def run(tier):
                         "list cannot display is rendered (%s) where the same call in a fresh process returns 0 with an error"
                         % ca.out[1][:160], {"script": ca.setup + ca.ops, "result": ca.out[1][:400], "fresh_result": cb.out[0][:400]})
     dist["prefix_list_pairs"] = len(pcases) // 2
+    # the declared input as a PREFIX of a longer caller buffer (ordinary use; the harness passes *inlen = length - slack):
+    # whatever stands behind the declared input - here what would continue a repetition - must not be consumed or looked at:
+    # *inlen <= declared, and the same result as with blanks behind it (seeded change C04-G compared the next repetition with
+    # characters behind the end)
+    from .. import gen_features as GF
+    scases = []
+    for i in range(40 if tier == "quick" else 1200):
+        w = GF.gen(rng, want={"repword", "repeated"})
+        if not w.tail_conts:
+            continue
+        tn = "c04s%d.ctb" % i
+        for (tail, cont) in rng.sample(w.tail_conts, min(3, len(w.tail_conts))):
+            cont = list(cont) + [0x20] * 16      # (the pattern ends well inside the caller's buffer)
+            body = [c for c in GF.text_for(rng, w)[:6] if c]
+            u = (body + [0x20] if body and rng.random() < 0.6 else []) + list(tail)
+            for mode in (0, 4):
+                cap = 8 * (len(u) + len(cont)) + 32
+                # (no outputPos array: it has one element per DECLARED character, and a position behind the declared input
+                # written there is a memory fault - C01's matter - that would hide the length this check looks at)
+                a = "FWD %s %d %d - 8 %s - -" % (tn, mode, cap, common.wide(u + list(cont)))
+                b = "FWD %s %d %d - 8 %s - -" % (tn, mode, cap, common.wide(u + [0x20] * len(cont)))
+                scases.append(common.Case("c04-slk%d-%d" % (i, len(scases)), ["LOGDUMP 1", "TBL %s %s" % (tn, common.hexbytes(w.text)), "HOOK budget 3000000",
+                                                                            "HOOK inslack %d" % len(cont)], [a, b], {"n": len(u), "text": w.text}))
+    common.run_cases(exe, scases, batch=8)
+    nsl = 0
+    for c in scases:
+        if len(c.out) < 2:
+            continue
+        Ra, Rb = common.parse_R(c.out[0]), common.parse_R(c.out[1])
+        if Ra is None or Rb is None:
+            continue
+        nsl += 1
+        v.cov["evaluations"] += 1
+        rep = {"script": c.setup + c.ops, "results": [c.out[0][:400], c.out[1][:400]], "table_text": c.meta["text"]}
+        if Ra["ret"] and Ra["inlen"] > c.meta["n"]:
+            v.violation("C04:inlen:beyond-declared", "the text is a prefix of a longer buffer: *inlen comes back as %d, %d were declared"
+                        % (Ra["inlen"], c.meta["n"]), rep)
+        elif (Ra["ret"], Ra["inlen"], Ra["outlen"], Ra["out"]) != (Rb["ret"], Rb["inlen"], Rb["outlen"], Rb["out"]):
+            v.violation("C04:inlen:depends-on-slack", "the result depends on what stands behind the declared input in the caller's buffer", rep)
+    dist["prefix_of_longer_buffer_calls"] = nsl
     v.cov["distribution"] = dist
     v.cov["rule"] = ("FWD/BWD calls over %d shipped tables (+ display tables) x generated inputs x modes x capacities, incl. a "
                      "generous-capacity stream for the completeness clause; non-trivial = non-empty output or a failing call; "
